@@ -213,3 +213,77 @@ def fdiff(a, b, path=""):
     if a != b:
         return "%s: %r vs %r" % (path, a, b)
     return None
+
+
+# ------------------------------------------------------------------ blocks edited in place (stale caches)
+def inplace_cases(chk, n, salt):
+    """[(kind, fmt, v, w)]: w has the shape of v; the implementation object is built from v, used (sized, encoded,
+    compared, printed), edited in place to hold w and used again"""
+    rng = common.rng_for(chk.seed, salt, "inplace")
+    out = []
+    for i in range(n):
+        kind = blocks.KINDS[i % len(blocks.KINDS)]
+        fmt, v = blocks.gen(kind, rng, big=4)
+        out.append((kind, fmt, v, blocks.perturb(kind, fmt, v, rng)))
+        chk.count("edited in place: " + kind)
+    return out
+
+
+def impl_after_inplace(kind, fmt, v, w):
+    """dict like impl_roundtrip, for the object built from v, warmed, edited in place to w"""
+    try:
+        o = blocks.build(kind, fmt, v)
+        blocks.warm(o)
+        blocks.apply_inplace(kind, fmt, o, w)
+    except Exception as e:
+        return {"build_err": common.exc_info(e)}
+    r = {}
+    try:
+        r["nbytes"] = int(o.nBytes)
+    except Exception as e:
+        r["nbytes"] = "err:" + common.exc_info(e)
+    try:
+        r["enc"] = blocks.impl_write(o)
+    except Exception as e:
+        r["enc"] = None
+        r["enc_exc"] = common.exc_info(e)
+        return r
+    r.update(impl_decode(kind, fmt, r["enc"]))
+    r["obj"] = o
+    return r
+
+
+def check_inplace(chk, pid, n):
+    """the property pid (C01 / C02 / C05 / C06) on blocks reached by in-place edits; the model side is simply the
+    value w (values have no history)"""
+    cases = inplace_cases(chk, n, pid)
+    mres = model_eval([(k, f, w) for k, f, v, w in cases], want=("wfb", "enc", "size"))
+    for (kind, fmt, v, w), m in zip(cases, mres):
+        if not m["wfb"]:
+            raise RuntimeError("perturb produced an invalid block: " + blocks.describe(kind, fmt, w))
+        chk.note_case((kind, fmt, "edited in place", v, w), blocks.nontrivial(kind, w))
+        case = {"kind": kind, "fmt": fmt, "built_from": v, "edited_in_place_to": w}
+        i = impl_after_inplace(kind, fmt, v, w)
+        if "build_err" in i:
+            chk.violation("%s: a block cannot be edited in place: %s" % (kind, i["build_err"]), case, True)
+            continue
+        if i["enc"] is None:
+            chk.violation("%s: a block edited in place cannot be encoded: %s" % (kind, i["enc_exc"]), case, True)
+            continue
+        if pid == "C02":
+            if not (i["nbytes"] == len(i["enc"]) == i.get("consumed")):
+                chk.violation("%s fmt=%d after an in-place edit: nBytes=%r, bytes written=%d, bytes consumed=%r" %
+                              (kind, fmt, i["nbytes"], len(i["enc"]), i.get("consumed")), case, True)
+            elif m["size"] != len(i["enc"]):
+                chk.violation("%s: size differs from the model after an in-place edit" % kind, dict(case, correspondence="Fmt.size"), False)
+        elif pid == "C06":
+            if i["enc"] != m["enc"]:
+                k = next((j for j, (x, y) in enumerate(zip(i["enc"], m["enc"])) if x != y), min(len(i["enc"]), len(m["enc"])))
+                chk.violation("%s fmt=%d after an in-place edit: bytes written differ from the layout-driven encoder of the "
+                              "block's current content at offset %d (%d vs %d bytes)" % (kind, fmt, k, len(i["enc"]), len(m["enc"])), case, True)
+        else:   # C01 / C05: what comes back is the current content
+            if i.get("dec") is None:
+                chk.violation("%s after an in-place edit: own encoding cannot be decoded: %s" % (kind, i.get("dec_exc")), case, True)
+            elif i["dec"] != w:
+                chk.violation("%s fmt=%d after an in-place edit: decode(encode(b)) differs from the block's current content at %s" %
+                              (kind, fmt, fdiff(i["dec"], w)), case, True)
